@@ -129,46 +129,94 @@ package template
 //@ func (*MethodScope).addImport props=C15,C01,C13
 //@   requires ScopeOK(m) && pkg != nil && imports != nil && imports != m.imports && imports != m.registry.imports && imports != m.registry.importQualifiers && allocated(imports)
 //@   ensures#inv ScopeOK(m) && m.registry == old(m.registry)
-//@   ensures#recorded (pkg.Path() in imports) && (pkg.Path() in m.imports) && imports[pkg.Path()] == m.imports[pkg.Path()]
+//@   ensures#recorded (pkg.Path() in imports) && (pkg.Path() in m.imports) && imports[pkg.Path()] == m.imports[pkg.Path()] && has(keys(imports), pkg.Path())
+//@   ensures#sub sub(old(keys(imports)), keys(imports))
 //@   ensures#onlythis forall p string :: p != pkg.Path() ==> ((p in imports) <==> old(p in imports)) && imports[p] == old(imports[p])
 //@   ensures#names forall n string :: old(n in m.visibleNames) ==> (n in m.visibleNames)
 //@   assigns imports, m.imports, m.visibleNames, m.registry.imports, m.registry.importQualifiers, fresh
 
-// ---- collecting the imports of a type (C01 item 1, partial: bookkeeping invariants and monotonicity;
-// the coverage statement "every package mentioned by t ends up in imports" is not proved here) -------
+// ---- collecting the imports of a type (C01 item 1: import completeness) ---------------------------
+// cov(t, d): the key set d contains the import path of every package that the type expression t
+// mentions. It is specified by cases on the go/types constructor (the axioms below are the definition
+// of "packages mentioned by t": sufficient conditions, one per constructor, plus monotonicity in d).
 //@ axiom unsafe_nonnil: types.Unsafe != nil
+//@ spec cov(t types.Type, d keyset) bool
+//@ spec covList(l *types.TypeList, d keyset) bool
+//@ spec covTuple(tu *types.Tuple, d keyset) bool
+//@ spec covFields(st *types.Struct, d keyset) bool
+//@ spec covTerms(u *types.Union, d keyset) bool
+//@ spec covMethods(it *types.Interface, d keyset) bool
+//@ spec covEmbeds(it *types.Interface, d keyset) bool
+//@ axiom cov_mono: forall t types.Type, d keyset, e keyset :: cov(t, d) && sub(d, e) ==> cov(t, e)
+//@ axiom covlist_mono: forall l *types.TypeList, d keyset, e keyset :: covList(l, d) && sub(d, e) ==> covList(l, e)
+//@ axiom covtuple_mono: forall tu *types.Tuple, d keyset, e keyset :: covTuple(tu, d) && sub(d, e) ==> covTuple(tu, e)
+//@ axiom covmethods_mono: forall it *types.Interface, d keyset, e keyset :: covMethods(it, d) && sub(d, e) ==> covMethods(it, e)
+//@ axiom covlist_def: forall l *types.TypeList, d keyset :: (l == nil || (forall i int :: 0 <= i && i < l.Len() ==> cov(l.At(i), d))) ==> covList(l, d)
+//@ axiom covtuple_def: forall tu *types.Tuple, d keyset :: (forall i int :: 0 <= i && i < tu.Len() ==> cov(tu.At(i).Type(), d)) ==> covTuple(tu, d)
+//@ axiom covfields_def: forall st *types.Struct, d keyset :: (forall i int :: 0 <= i && i < st.NumFields() ==> cov(st.Field(i).Type(), d)) ==> covFields(st, d)
+//@ axiom covterms_def: forall u *types.Union, d keyset :: (forall i int :: 0 <= i && i < u.Len() ==> cov(u.Term(i).Type(), d)) ==> covTerms(u, d)
+//@ axiom covmethods_def: forall it *types.Interface, d keyset :: (forall i int :: 0 <= i && i < it.NumExplicitMethods() ==> cov(it.ExplicitMethod(i).Type(), d)) ==> covMethods(it, d)
+//@ axiom covembeds_def: forall it *types.Interface, d keyset :: (forall i int :: 0 <= i && i < it.NumEmbeddeds() ==> cov(it.EmbeddedType(i), d)) ==> covEmbeds(it, d)
+//@ axiom cov_named: forall t types.Type, d keyset :: dyn(t) == tagof(*types.Named) && (unbox(*types.Named, t).Obj().Pkg() != nil ==> has(d, unbox(*types.Named, t).Obj().Pkg().Path())) && covList(unbox(*types.Named, t).TypeArgs(), d) ==> cov(t, d)
+//@ axiom cov_alias: forall t types.Type, d keyset :: dyn(t) == tagof(*types.Alias) && (unbox(*types.Alias, t).Obj().Pkg() != nil ==> has(d, unbox(*types.Alias, t).Obj().Pkg().Path())) && covList(unbox(*types.Alias, t).TypeArgs(), d) ==> cov(t, d)
+//@ axiom cov_array: forall t types.Type, d keyset :: dyn(t) == tagof(*types.Array) && cov(unbox(*types.Array, t).Elem(), d) ==> cov(t, d)
+//@ axiom cov_slice: forall t types.Type, d keyset :: dyn(t) == tagof(*types.Slice) && cov(unbox(*types.Slice, t).Elem(), d) ==> cov(t, d)
+//@ axiom cov_chan: forall t types.Type, d keyset :: dyn(t) == tagof(*types.Chan) && cov(unbox(*types.Chan, t).Elem(), d) ==> cov(t, d)
+//@ axiom cov_pointer: forall t types.Type, d keyset :: dyn(t) == tagof(*types.Pointer) && cov(unbox(*types.Pointer, t).Elem(), d) ==> cov(t, d)
+//@ axiom cov_map: forall t types.Type, d keyset :: dyn(t) == tagof(*types.Map) && cov(unbox(*types.Map, t).Key(), d) && cov(unbox(*types.Map, t).Elem(), d) ==> cov(t, d)
+//@ axiom cov_signature: forall t types.Type, d keyset :: dyn(t) == tagof(*types.Signature) && covTuple(unbox(*types.Signature, t).Params(), d) && covTuple(unbox(*types.Signature, t).Results(), d) ==> cov(t, d)
+//@ axiom cov_struct: forall t types.Type, d keyset :: dyn(t) == tagof(*types.Struct) && covFields(unbox(*types.Struct, t), d) ==> cov(t, d)
+//@ axiom cov_union: forall t types.Type, d keyset :: dyn(t) == tagof(*types.Union) && covTerms(unbox(*types.Union, t), d) ==> cov(t, d)
+//@ axiom cov_interface: forall t types.Type, d keyset :: dyn(t) == tagof(*types.Interface) && covMethods(unbox(*types.Interface, t), d) && covEmbeds(unbox(*types.Interface, t), d) ==> cov(t, d)
+//@ axiom cov_basic: forall t types.Type, d keyset :: dyn(t) == tagof(*types.Basic) && (unbox(*types.Basic, t).Kind() == types.UnsafePointer ==> has(d, types.Unsafe.Path())) ==> cov(t, d)
+//@ axiom cov_other: forall t types.Type, d keyset :: dyn(t) != tagof(*types.Named) && dyn(t) != tagof(*types.Alias) && dyn(t) != tagof(*types.Array) && dyn(t) != tagof(*types.Slice) && dyn(t) != tagof(*types.Chan)
+//@      && dyn(t) != tagof(*types.Pointer) && dyn(t) != tagof(*types.Map) && dyn(t) != tagof(*types.Signature) && dyn(t) != tagof(*types.Struct) && dyn(t) != tagof(*types.Union)
+//@      && dyn(t) != tagof(*types.Interface) && dyn(t) != tagof(*types.Basic) ==> cov(t, d)
+
 //@ define ImpOK(m *MethodScope, imports map[string]*Package) bool = ScopeOK(m) && imports != nil && imports != m.imports && imports != m.registry.imports
 //@     && imports != m.registry.importQualifiers && allocated(imports)
 //   FrameOK: maps other than the four the import bookkeeping writes, and name sets other than the scope's, are untouched.
 //@ define FrameOK(m *MethodScope, imports map[string]*Package) bool = (forall mm map[string]*Package :: mm != imports && mm != m.imports && mm != m.registry.imports && mm != m.registry.importQualifiers && old(allocated(mm)) ==> unchanged(mm))
 //@     && (forall nn map[string]any :: nn != m.visibleNames && old(allocated(nn)) ==> unchanged(nn))
-//@ func (*MethodScope).populateImportsHelper props=C01,C15
+//@ func (*MethodScope).populateImportsHelper props=C01,C15,C02,C14
 //@   requires ImpOK(m, imports)
 //@   ensures#inv ImpOK(m, imports) && m.registry == old(m.registry) && m.imports == old(m.imports) && m.visibleNames == old(m.visibleNames)
 //@   ensures#mono forall p string :: old(p in imports) ==> (p in imports)
+//@   ensures#sub sub(old(keys(imports)), keys(imports))
 //@   ensures#names forall n string :: old(n in m.visibleNames) ==> (n in m.visibleNames)
-//@   loop 0: invariant ImpOK(m, imports) && m.registry == old(m.registry) && m.imports == old(m.imports) && m.visibleNames == old(m.visibleNames) && (forall p string :: old(p in imports) ==> (p in imports)) && (forall n string :: old(n in m.visibleNames) ==> (n in m.visibleNames)) && FrameOK(m, imports)
-//@   loop 1: invariant ImpOK(m, imports) && m.registry == old(m.registry) && m.imports == old(m.imports) && m.visibleNames == old(m.visibleNames) && (forall p string :: old(p in imports) ==> (p in imports)) && (forall n string :: old(n in m.visibleNames) ==> (n in m.visibleNames)) && FrameOK(m, imports)
-//@   loop 2: invariant ImpOK(m, imports) && m.registry == old(m.registry) && m.imports == old(m.imports) && m.visibleNames == old(m.visibleNames) && (forall p string :: old(p in imports) ==> (p in imports)) && (forall n string :: old(n in m.visibleNames) ==> (n in m.visibleNames)) && FrameOK(m, imports)
-//@   loop 3: invariant ImpOK(m, imports) && m.registry == old(m.registry) && m.imports == old(m.imports) && m.visibleNames == old(m.visibleNames) && (forall p string :: old(p in imports) ==> (p in imports)) && (forall n string :: old(n in m.visibleNames) ==> (n in m.visibleNames)) && FrameOK(m, imports)
-//@   loop 4: invariant ImpOK(m, imports) && m.registry == old(m.registry) && m.imports == old(m.imports) && m.visibleNames == old(m.visibleNames) && (forall p string :: old(p in imports) ==> (p in imports)) && (forall n string :: old(n in m.visibleNames) ==> (n in m.visibleNames)) && FrameOK(m, imports)
-//@   loop 5: invariant ImpOK(m, imports) && m.registry == old(m.registry) && m.imports == old(m.imports) && m.visibleNames == old(m.visibleNames) && (forall p string :: old(p in imports) ==> (p in imports)) && (forall n string :: old(n in m.visibleNames) ==> (n in m.visibleNames)) && FrameOK(m, imports)
+//@   ensures#covers cov(t, keys(imports))
+//@   loop 0: invariant ImpOK(m, imports) && m.registry == old(m.registry) && m.imports == old(m.imports) && m.visibleNames == old(m.visibleNames) && (forall p string :: old(p in imports) ==> (p in imports)) && (forall n string :: old(n in m.visibleNames) ==> (n in m.visibleNames)) && FrameOK(m, imports) && sub(old(keys(imports)), keys(imports))
+//@   loop 0: invariant#cov forall k int :: 0 <= k && k < i ==> cov(unbox(*types.Signature, t).Params().At(k).Type(), keys(imports))
+//@   loop 1: invariant ImpOK(m, imports) && m.registry == old(m.registry) && m.imports == old(m.imports) && m.visibleNames == old(m.visibleNames) && (forall p string :: old(p in imports) ==> (p in imports)) && (forall n string :: old(n in m.visibleNames) ==> (n in m.visibleNames)) && FrameOK(m, imports) && sub(old(keys(imports)), keys(imports)) && covTuple(unbox(*types.Signature, t).Params(), keys(imports))
+//@   loop 1: invariant#cov forall k int :: 0 <= k && k < i ==> cov(unbox(*types.Signature, t).Results().At(k).Type(), keys(imports))
+//@   loop 2: invariant ImpOK(m, imports) && m.registry == old(m.registry) && m.imports == old(m.imports) && m.visibleNames == old(m.visibleNames) && (forall p string :: old(p in imports) ==> (p in imports)) && (forall n string :: old(n in m.visibleNames) ==> (n in m.visibleNames)) && FrameOK(m, imports) && sub(old(keys(imports)), keys(imports))
+//@   loop 2: invariant#cov forall k int :: 0 <= k && k < i ==> cov(unbox(*types.Struct, t).Field(k).Type(), keys(imports))
+//@   loop 3: invariant ImpOK(m, imports) && m.registry == old(m.registry) && m.imports == old(m.imports) && m.visibleNames == old(m.visibleNames) && (forall p string :: old(p in imports) ==> (p in imports)) && (forall n string :: old(n in m.visibleNames) ==> (n in m.visibleNames)) && FrameOK(m, imports) && sub(old(keys(imports)), keys(imports))
+//@   loop 3: invariant#cov forall k int :: 0 <= k && k < i ==> cov(unbox(*types.Union, t).Term(k).Type(), keys(imports))
+//@   loop 4: invariant ImpOK(m, imports) && m.registry == old(m.registry) && m.imports == old(m.imports) && m.visibleNames == old(m.visibleNames) && (forall p string :: old(p in imports) ==> (p in imports)) && (forall n string :: old(n in m.visibleNames) ==> (n in m.visibleNames)) && FrameOK(m, imports) && sub(old(keys(imports)), keys(imports))
+//@   loop 4: invariant#cov forall k int :: 0 <= k && k < i ==> cov(unbox(*types.Interface, t).ExplicitMethod(k).Type(), keys(imports))
+//@   loop 5: invariant ImpOK(m, imports) && m.registry == old(m.registry) && m.imports == old(m.imports) && m.visibleNames == old(m.visibleNames) && (forall p string :: old(p in imports) ==> (p in imports)) && (forall n string :: old(n in m.visibleNames) ==> (n in m.visibleNames)) && FrameOK(m, imports) && sub(old(keys(imports)), keys(imports)) && covMethods(unbox(*types.Interface, t), keys(imports))
+//@   loop 5: invariant#cov forall k int :: 0 <= k && k < i ==> cov(unbox(*types.Interface, t).EmbeddedType(k), keys(imports))
 //@   assigns imports, m.imports, m.visibleNames, m.registry.imports, m.registry.importQualifiers, fresh
 
-//@ func (*MethodScope).populateImportNamedType props=C01,C15
+//@ func (*MethodScope).populateImportNamedType props=C01,C15,C02,C14
 //@   requires ImpOK(m, imports) && t != nil
 //@   ensures#inv ImpOK(m, imports) && m.registry == old(m.registry) && m.imports == old(m.imports) && m.visibleNames == old(m.visibleNames)
 //@   ensures#mono forall p string :: old(p in imports) ==> (p in imports)
+//@   ensures#sub sub(old(keys(imports)), keys(imports))
 //@   ensures#names forall n string :: old(n in m.visibleNames) ==> (n in m.visibleNames)
-//@   ensures#own t.Obj().Pkg() != nil ==> (t.Obj().Pkg().Path() in imports)
-//@   loop 0: invariant ImpOK(m, imports) && m.registry == old(m.registry) && m.imports == old(m.imports) && m.visibleNames == old(m.visibleNames) && (forall p string :: old(p in imports) ==> (p in imports)) && (forall n string :: old(n in m.visibleNames) ==> (n in m.visibleNames)) && FrameOK(m, imports)
-//@   loop 0: invariant#own t.Obj().Pkg() != nil ==> (t.Obj().Pkg().Path() in imports)
+//@   ensures#own t.Obj().Pkg() != nil ==> has(keys(imports), t.Obj().Pkg().Path())
+//@   ensures#args covList(t.TypeArgs(), keys(imports))
+//@   loop 0: invariant ImpOK(m, imports) && m.registry == old(m.registry) && m.imports == old(m.imports) && m.visibleNames == old(m.visibleNames) && (forall p string :: old(p in imports) ==> (p in imports)) && (forall n string :: old(n in m.visibleNames) ==> (n in m.visibleNames)) && FrameOK(m, imports) && sub(old(keys(imports)), keys(imports))
+//@   loop 0: invariant#own t.Obj().Pkg() != nil ==> has(keys(imports), t.Obj().Pkg().Path())
+//@   loop 0: invariant#cov targs == t.TypeArgs() && (forall k int :: 0 <= k && k < i ==> cov(targs.At(k), keys(imports)))
 //@   assigns imports, m.imports, m.visibleNames, m.registry.imports, m.registry.importQualifiers, fresh
 
-//@ func (*MethodScope).populateImports props=C01,C15
+//@ func (*MethodScope).populateImports props=C01,C15,C02,C14
 //@   requires ScopeOK(m)
 //@   ensures#inv ScopeOK(m) && m.registry == old(m.registry) && m.imports == old(m.imports) && m.visibleNames == old(m.visibleNames) && result != nil && fresh(result)
 //@   ensures#names forall n string :: old(n in m.visibleNames) ==> (n in m.visibleNames)
+//@   ensures#covers cov(t, keys(result))
 //@   assigns m.imports, m.visibleNames, m.registry.imports, m.registry.importQualifiers, fresh
 
 // ---- variable names (C14: valid identifiers that capture nothing; C01: nor identifiers the templates use) ----
@@ -214,6 +262,7 @@ package template
 //@   ensures#inv ScopeOK(m) && m.registry == old(m.registry) && m.imports == old(m.imports) && m.visibleNames == old(m.visibleNames)
 //@   ensures#var err == nil ==> result != nil && fresh(result) && result.vr == vr && result.pkgPath == m.pkgPath && result.imports != nil
 //@   ensures#typ err == nil && replacement == nil ==> result.typ == vr.Type()
+//@   ensures#covers err == nil && replacement == nil ==> cov(vr.Type(), keys(result.imports))
 //@   ensures#appended err == nil ==> len(m.vars) == old(len(m.vars)) + 1 && m.vars[old(len(m.vars))] == result && (forall i int :: 0 <= i && i < old(len(m.vars)) ==> m.vars[i] == old(m.vars[i]))
 //@   ensures#failed err != nil ==> m.vars == old(m.vars) && result == nil
 //@   ensures#names forall n string :: old(n in m.visibleNames) ==> (n in m.visibleNames)
